@@ -561,8 +561,14 @@ Proof.
   repeat ok_step ltac:(first [ apply parse_entity_def_wf; solve [fin] | sspec ]); fin.
 Qed.
 
+Lemma consume_decl_loop_wf : forall fuel s, R s -> okP (consume_decl_loop text fuel s) R.
+Proof.
+  induction fuel as [|fu IH]; intros s Hr; cbn [consume_decl_loop]; [apply okP_fuel|].
+  repeat ok_step ltac:(first [ apply IH; solve [fin] | sspec ]); fin.
+Qed.
+
 Lemma consume_decl_wf s : R s -> okP (consume_decl text s) R.
-Proof. intros Hr. unfold consume_decl. go. Qed.
+Proof. intros Hr. unfold consume_decl. apply consume_decl_loop_wf. exact Hr. Qed.
 
 Lemma parse_doctype_start_wf s : R s -> okP (parse_doctype_start text s) R.
 Proof.
